@@ -84,6 +84,10 @@ fn check(prop: &str, tier: Tier) -> i32 {
         eprintln!("no spaces for {prop}");
         return 2;
     }
+    if prop == "C16" {
+        // executions are latency-bound (the runner really sleeps 1 ms per poll): oversubscribe
+        engine::OVERSUBSCRIBE.store(3, std::sync::atomic::Ordering::SeqCst);
+    }
     let report = engine::run_spaces(prop, tier, &spaces, wall_cap(tier));
 
     // ---- verdict
